@@ -197,6 +197,43 @@ def rule_own(env, shared):
                               "the remainder split of %s %s" % (nm, "modifies its split index" if arith2 else
                                                                 "is reachable from shared (&self) callers or ignores its index"),
                               True))
+        # ---- (f) a vector taken out of the ManuallyDrop storage still *lists* the delivered elements: before it is dropped
+        #          its length must be set to 0 (it may only release the allocation), unless it is re-wrapped / returned
+        for b in own_bodies:
+            if F.impl_self_adt(b) != adt:
+                continue
+            ctxb = env.ctx(b, adt, w)
+            for bi, t, c in b.calls():
+                if b.blocks[bi]["cleanup"] or c.key != "std::mem::ManuallyDrop::take":
+                    continue
+                a0 = ev.operand(ctxb, t["args"][0])
+                if R.classify(a0) != ("store", adt):
+                    continue
+                dl = t["dest"]["l"]
+                if "Vec<" not in b.locals[dl]["ty"]["s"]:
+                    continue
+                al = _alias_locals(b, dl)
+                for bj, blk in enumerate(b.blocks):
+                    tt = blk["term"]
+                    if blk["cleanup"] or tt["k"] != "drop" or tt["place"]["p"] or tt["place"]["l"] not in al:
+                        continue
+                    k = "OWN.f|%s|%s|taken-storage-dropped" % (nm, env.fname(b))
+                    zeroed = False
+                    for bk, t2, c2 in b.calls():
+                        if c2.key == "std::vec::Vec::set_len" and b.dominates(bk, bj):
+                            r0 = ev.operand(ctxb, t2["args"][0])
+                            v = unref(ev.operand(ctxb, t2["args"][1]))
+                            tl = t2["args"][0]
+                            if v == ("int", 0):
+                                zeroed = True
+                    if zeroed:
+                        out.append(Ob("OWN.f", k, "ok", b.file_line(tt["loc"]),
+                                      "the taken vector only releases its allocation (set_len(0) dominates the drop)", True))
+                    else:
+                        out.append(Ob("OWN.f", k, "viol", b.file_line(tt["loc"]),
+                                      "%s drops the vector taken out of the storage of %s with its length intact: every element "
+                                      "it still lists — delivered to callers or already dropped with the remainder — is dropped "
+                                      "again" % (env.fname(b), nm)))
         # ---- (e) a non-destructive remainder split (raw reads) leaves the storage intact: a by-value caller must mark
         #          the iterator exhausted afterwards, or its implicit Drop splits the same remainder off again
         if dfn and dfn in F.bodies:
